@@ -122,6 +122,10 @@ static void stage_lengths(Run &R) {
         for (const char *sfx : {"example.com", "test", "localhost", "onion", "example.org", "invalid", "com", "ru", "xn--p1ai"})
             for (const Bytes &d : {"a" + X + "b." + sfx, X + "." + sfx}) if (!go(d)) return;
     }
+    // IDNA-mapped spellings: ignorable code points (hundreds of them, so that the UTF-8 text passes 255 / 1023 / 2047 octets while the
+    // A-label form stays short) followed by something invalid, and full-stop look-alikes as the only separators
+    for (const Bytes &d : gen::idn_mapped_shapes("a", "com")) if (!go(d)) return;
+    for (const Bytes &d : gen::idn_mapped_shapes("\xD0\xBF\xD0\xBE\xD1\x87\xD1\x82\xD0\xB0", "\xD1\x80\xD1\x84")) if (!go(d)) return;
     // all-numeric shapes
     for (const char *s : {"1", "12", "1.2", "1.2.3.4", "1.2.3.4.", "123.456", "1a.2", "1-2", "1.2-3", "0", "1.a", "a.1", "1_2", "4294967296", "1..2", "127.0.0.1", "1.2.3.com", "1.2.3.4.com"})
         if (!go(s)) return;
